@@ -185,9 +185,11 @@ def run_params(draw, bias):
     retry = draw(st.integers(0, 3)) if bias.get("retries", True) else 0
     if retry:
         params["max_tries"] = draw(st.sampled_from([1, 2, 2, 3]))
-        if draw(st.booleans()):
+        if draw(st.booleans()) or (bias.get("limit_concurrency") and draw(st.booleans())):
             # never more concurrent tries than tries: the combination is contradictory and nothing documents it
             params["max_concurrent_tries"] = draw(st.integers(1, max(1, min(2, params["max_tries"]))))
+            if bias.get("limit_concurrency") and draw(st.booleans()):
+                params["max_concurrent_tries"] = 1
         if draw(st.integers(0, 3)) == 0:
             params["rerun_status"] = " ".join(draw(st.lists(st.sampled_from(
                 ["pass", "fail", "error", "warn", "skip", "cancel", "interrupted", "unknown"]), min_size=1, max_size=3, unique=True)))
@@ -1033,8 +1035,8 @@ BIASES = {
     "C02": {"dry_run": True},
     "C03": {"dry_run": False, "fail_modes": ["none", "none", "some", "some", "always"], "never": "single", "late": True,
             "alphabet": ["FAIL", "ERROR", "WARN", "SKIP", "CANCEL", "INTERRUPTED"]},
-    "C04": {"dry_run": False, "durations": ["0.1T", "0.1T", "0.3T", "0.3T", "0.5T", "0.5T", "0.99T", "0.2T", "0.6T"],
-            "fail_modes": ["none", "none", "some"], "alphabet": ["FAIL", "ERROR", "WARN", "SKIP"]},
+    "C04": {"dry_run": False, "limit_concurrency": True, "durations": ["0.1T", "0.3T", "0.5T", "0.5T", "0.8T", "0.99T", "0.99T", "0.2T", "0.6T"],
+            "fail_modes": ["none", "some", "some"], "alphabet": ["FAIL", "ERROR", "WARN", "SKIP"]},
     "C05": {"dry_run": False, "pool_modes": ["empty", "shared", "shared", "synced"]},
     "C08": {"dry_run": False, "pool_modes": ["empty", "empty", "shared", "residue"],
             "fail_modes": ["none", "none", "none", "some"]},
